@@ -145,10 +145,11 @@ def main(p):
     for cell in a['cells']:
         rpc = cell['rpc']
         py = names.py_method(rpc)
-        gpath = f'/{tp}.{a["service"]}/{rpc}'
+        svc_name = cell.get('service', a['service'])
+        gpath = f'/{tp}.{svc_name}/{rpc}'
         rest_only = a['transport'] == 'rest'
         for variant in ('sync', 'async'):
-            tag = f'{a["shortname"]}_{a["version"]}_generated_{a["service"]}_{rpc}_{variant}'
+            tag = f'{cell.get("shortname", a["shortname"])}_{a["version"]}_generated_{svc_name}_{rpc}_{variant}'
             entries = by_tag.get(tag, [])
             if variant == 'async' and not grpc_on:
                 if entries:
@@ -200,7 +201,7 @@ def main(p):
             if C is None or cm.get('client', {}).get('fullName') != f'{a["package"]}.{cname}':
                 fail(cell, variant, 'metadata-client', cm.get('client'))
             else:
-                exp_c = a['service'] + ('AsyncClient' if variant == 'async' else 'Client')
+                exp_c = svc_name + ('AsyncClient' if variant == 'async' else 'Client')
                 if cname != exp_c:
                     fail(cell, variant, 'metadata-client-kind', f'{cname} expected {exp_c}')
                 mname = cm.get('shortName')
